@@ -15,24 +15,25 @@ Open Scope nat_scope.
 
 (* ---- (1) wait() ------------------------------------------------------------------------------------------ *)
 
-(* Termination: with the explicit fuel (|G| + 1) * (bound + 2) the model never runs out of fuel -- for every
+(* Termination: with the explicit fuel (|G| + 1) * (bound + 2) -- bound is N1, the `seen` bound; the second counter
+   can only stop the loop earlier, so the fuel does not depend on it -- the model never runs out of fuel, for every
    graph (also cyclic ones, dangling references, unsettled promises), every start node, every bound of the
    `seen` list, speculating or not, from every state whose flag list has the graph's length.
    (The real loop is bounded the same way: each nesting level either sets one more is_awaiting flag or
    lengthens `seen`, and both are bounded.) *)
 Theorem C08_wait_terminates :
-  forall (bound : nat) (spec : bool) (G : graph) (fuel : nat) (st : state) (i : nat),
+  forall (bound bound2 : nat) (isp : nat -> bool) (spec : bool) (G : graph) (fuel : nat) (st : state) (i : nat),
     length (awaiting st) = length G ->
     fuel >= fuel_bound bound G ->
-    wait bound spec G fuel st i <> RFuel.
+    wait bound bound2 isp spec G fuel st i <> RFuel.
 Proof. exact wait_terminates_lemma. Qed.
 Print Assumptions C08_wait_terminates.
 
 (* Every is_awaiting flag has its old value again after any outcome (value, DeferredCycle, NotReadyError, the
    fatal Exception) -- so a reported cycle does not poison later evaluations. *)
 Theorem C08_flags_restored :
-  forall (bound : nat) (spec : bool) (G : graph) (fuel : nat) (st : state) (seen : list nat) (i : nat),
-    match wait_top bound spec G fuel st seen i with
+  forall (bound bound2 : nat) (isp : nat -> bool) (spec : bool) (G : graph) (fuel : nat) (st : state) (seen : list nat) (p i : nat),
+    match wait_top bound bound2 isp spec G fuel st seen p i with
     | RFuel => True
     | RVal _ st' | RRaise _ st' => awaiting st' = awaiting st
     end.
@@ -42,9 +43,9 @@ Print Assumptions C08_flags_restored.
 (* A value returned by wait() satisfies the dependency equations of the graph (value_of is their least
    solution), whatever was settled before, and leaves the settled table sound. *)
 Theorem C08_wait_result_sound :
-  forall (G : graph) (bound : nat) (spec : bool) (fuel : nat) (st : state) (seen : list nat) (i : nat),
+  forall (G : graph) (bound bound2 : nat) (isp : nat -> bool) (spec : bool) (fuel : nat) (st : state) (seen : list nat) (p i : nat),
     settled_sound G st ->
-    match wait_top bound spec G fuel st seen i with
+    match wait_top bound bound2 isp spec G fuel st seen p i with
     | RVal z st' => value_of G i z /\ settled_sound G st'
     | RRaise _ st' => settled_sound G st'
     | RFuel => True
@@ -60,30 +61,34 @@ Print Assumptions C08_value_unique.
 
 (* DeferredCycle, from a clean start, is only ever raised when the start node reaches a cycle of the graph
    (through dependencies or yielded objects), or when a chain of yielded objects is at least `bound` long
-   (the `len(seen) >= N` clause; N = Gen.GenPartial.wait_seen_bound). *)
+   (the `len(seen) >= N1` clause; N1 = Gen.GenPartial.wait_seen_bound), or when such a chain contains at least
+   `bound2` steps in which a LinearPolynomial yields a LinearPolynomial (the `polynomial_steps >= N2` clause;
+   N2 = wait_poly_bound; the code counts all such steps of the chain, consecutive or not, and so does long_poly). *)
 Theorem C08_cycle_reported_only_for_cycles :
-  forall (G : graph) (bound : nat) (spec : bool) (fuel : nat) (i : nat) (st' : state),
-    wait bound spec G fuel (init_state G) i = RRaise ECycle st' ->
-    reaches_cycle G i \/ long_forward G bound.
+  forall (G : graph) (bound bound2 : nat) (isp : nat -> bool) (spec : bool) (fuel : nat) (i : nat) (st' : state),
+    wait bound bound2 isp spec G fuel (init_state G) i = RRaise ECycle st' ->
+    reaches_cycle G i \/ long_forward G bound \/ long_poly G isp bound2.
 Proof. exact cycle_sound. Qed.
 Print Assumptions C08_cycle_reported_only_for_cycles.
 
 (* Conversely a closed graph (no dangling reference, every promise settled) that is acyclic (a rank decreases
    along every edge) and whose chains of yielded objects are shorter than `bound` gets a value -- the solution
-   of the equations -- and never DeferredCycle, NotReadyError or the fatal Exception. *)
+   of the equations -- and never DeferredCycle, NotReadyError or the fatal Exception.  [ranked] also asks for
+   plen, a bound below N2 of the polynomial-yields-polynomial steps on every chain: a chain of plain aliases
+   (no polynomial) of up to N1 - 1 links satisfies it with plen = 0. *)
 Theorem C08_acyclic_gets_value :
-  forall (G : graph) (bound : nat) (spec : bool) (rank flen : nat -> nat),
-    closed G -> ranked G bound rank flen ->
+  forall (G : graph) (bound bound2 : nat) (isp : nat -> bool) (spec : bool) (rank flen plen : nat -> nat),
+    closed G -> ranked G bound bound2 isp rank flen plen ->
     forall fuel i, i < length G -> fuel >= fuel_bound bound G ->
-    exists z st', wait bound spec G fuel (init_state G) i = RVal z st' /\ value_of G i z /\
+    exists z st', wait bound bound2 isp spec G fuel (init_state G) i = RVal z st' /\ value_of G i z /\
                   awaiting st' = awaiting (init_state G).
 Proof. exact acyclic_value. Qed.
 Print Assumptions C08_acyclic_gets_value.
 
 (* `with try_compute:` swallows exactly NotReadyError and DeferredCycle; whatever happened, the flags are back *)
 Theorem C08_try_compute_flags :
-  forall (bound : nat) (G : graph) (fuel : nat) (st : state) (i : nat),
-    match try_wait bound G fuel st i with
+  forall (bound bound2 : nat) (isp : nat -> bool) (G : graph) (fuel : nat) (st : state) (i : nat),
+    match try_wait bound bound2 isp G fuel st i with
     | TVal _ st' | TSwallowed st' | TCrash st' => awaiting st' = awaiting st
     | TFuel => True
     end.
@@ -93,7 +98,7 @@ Print Assumptions C08_try_compute_flags.
 (* while speculating (try_compute.depth > 0) an unsettled Promise gives NotReadyError, never the fatal
    Exception: in a graph without dangling references wait() cannot raise it at all *)
 Theorem C08_speculation_never_fatal :
-  forall (bound : nat) (G : graph) (fuel : nat) (st : state) (seen : list nat) (i : nat) (st' : state),
+  forall (bound bound2 : nat) (isp : nat -> bool) (G : graph) (fuel : nat) (st : state) (seen : list nat) (p i : nat) (st' : state),
     (forall k nd, nth_error G k = Some nd ->
        match nd with
        | NConst (NFwd j) => j < length G
@@ -101,7 +106,7 @@ Theorem C08_speculation_never_fatal :
        | _ => True
        end) ->
     settled_sound G st -> i < length G ->
-    wait_top bound true G fuel st seen i <> RRaise ECrash st'.
+    wait_top bound bound2 isp true G fuel st seen p i <> RRaise ECrash st'.
 Proof. exact spec_no_crash_closed. Qed.
 Print Assumptions C08_speculation_never_fatal.
 
@@ -109,15 +114,15 @@ Print Assumptions C08_speculation_never_fatal.
    yielded object; 'a = a' and 'a = b+1 / b = a+1' end in DeferredCycle with the model's own fuel bound *)
 Example C08_example_value :
   let G := [NFn [1] (fun vs => NVal (1 + fold_left Z.add vs 0)%Z); NConst (NVal 5%Z); NFn [] (fun _ => NFwd 0)] in
-  match wait wait_seen_bound false G (fuel_bound wait_seen_bound G) (init_state G) 2 with RVal 6%Z _ => True | _ => False end.
+  match wait wait_seen_bound wait_poly_bound (fun _ => false) false G (fuel_bound wait_seen_bound G) (init_state G) 2 with RVal 6%Z _ => True | _ => False end.
 Proof. vm_compute. exact I. Qed.
 Example C08_example_self_cycle :
   let G := [NFn [] (fun _ => NFwd 0)] in
-  match wait wait_seen_bound false G (fuel_bound wait_seen_bound G) (init_state G) 0 with RRaise ECycle _ => True | _ => False end.
+  match wait wait_seen_bound wait_poly_bound (fun _ => false) false G (fuel_bound wait_seen_bound G) (init_state G) 0 with RRaise ECycle _ => True | _ => False end.
 Proof. vm_compute. exact I. Qed.
 Example C08_example_mutual_cycle :
   let G := [NFn [1] (fun vs => NVal (1 + fold_left Z.add vs 0)%Z); NFn [0] (fun vs => NVal (1 + fold_left Z.add vs 0)%Z)] in
-  match wait wait_seen_bound false G (fuel_bound wait_seen_bound G) (init_state G) 0 with RRaise ECycle _ => True | _ => False end.
+  match wait wait_seen_bound wait_poly_bound (fun _ => false) false G (fuel_bound wait_seen_bound G) (init_state G) 0 with RRaise ECycle _ => True | _ => False end.
 Proof. vm_compute. exact I. Qed.
 
 (* ---- (2) Python partial operations under the guards the code has now -------------------------------------- *)
